@@ -50,7 +50,7 @@ theorem xmembers_run (lc : Libc) (ms : List (Gap × Quote × List StrItem × Gap
         (qText q k ++ (g2.text ++ 58 :: (g3.text ++ (d.text ++ (g4.text ++ s :: X)))))
       rw [hra]
       have hnsa : ta.strict = false := by rw [fa.strict]; exact hns
-      obtain ⟨tn, hsn, fn, hrn⟩ := reaches_qname lc ta l sv hsv (.obj kvs) nm rest hsa (fa.noVal hv) fa.hs q (Or.inr hnsa) k hkq
+      obtain ⟨tn, hsn, fn, hrn⟩ := reaches_qname_x lc ta l sv hsv (.obj kvs) nm rest hsa (fa.noVal hv) fa.hs hnsa q k hkq
       rw [hrn, hkey] at *
       have fn' : Frm t tn := fa.trans fn
       have hwfn : WF tn := wf_restack hwf hs hsn fn'.md (by simp [Level.topOk, isArrV, isObjV]; decide)
